@@ -367,6 +367,7 @@ func checkC10(c *Ctx) {
 		"G-C10-verify: Verify rejects unhandled critical extensions, an invalid leaf, a host-name mismatch (when a name is requested), an unbuildable chain and chains without the requested key usage; the only ways to a successful return pass these checks",
 		"G-C10-isvalid: isValid rejects issuer/subject mismatch with the child, a verification time outside [NotBefore, NotAfter], a name outside the permitted DNS domains, a non-CA intermediate and an exceeded path length; operators and operands checked on the canonical conditions",
 		"G-C10-parents: a certificate enters a chain only after CheckSignatureFrom == nil (findVerifiedParents) and isValid == nil with the right certificate type (buildChains, both loops); chains are extended on fresh copies",
+		"G-C10-candidates: findVerifiedParents tries the certificates indexed under the child's issuer name whenever the subject-key-id index gives none (completeness of chain building at the candidate-selection step; path enumeration with the ranged value resolved through the phis of each path)",
 		"G-C10-sigfrom: CheckSignatureFrom rejects v3 parents without valid basic constraints, non-CA parents (Entrust exception only), parents without certSign usage and unknown algorithms, and returns the signature check over RawTBSCertificate",
 		"G-C10-host: VerifyHostname accepts an IP literal only against IP SANs, a name only through matchHostnames on lower-cased SAN/CN (CN only without SANs); matchHostnames requires equal label counts and allows '*' only as the whole left-most label",
 		"FX-C10-pools: nothing reachable from Verify writes a CertPool")
@@ -380,6 +381,7 @@ func checkC10(c *Ctx) {
 	c10SigFrom(c)
 	c10Host(c)
 	c10PoolContains(c)
+	c10Candidates(c)
 	// FX inputs: nothing reachable from Verify writes memory reachable from its arguments (certificates,
 	// options incl. the requested key usages, pools, chains under construction), with named exceptions
 	if v := c.Fn("x509", "(*Certificate).Verify"); v != nil {
@@ -808,9 +810,17 @@ func c10Host(c *Ctx) {
 		// wildcard bypass: the '*' test true edge, which must itself be reachable only under i == 0
 		star := `re:eq\(idx\(` + P + `,[^)]*\),const:"\*":string\)`
 		starOK := false
+		for _, s := range ci.conds {
+			dbg("matchHostnames cond: %s", s)
+		}
+		star0 := `re:eq\(idx\(` + P + `,(0|0x0)\),const:"\*":string\)`
 		for ifi, s := range ci.conds {
+			if neg := negateCondString(s); !matchCond(s, star) && neg != "" && matchCond(neg, star) {
+				s = neg
+			}
 			if matchCond(s, star) {
-				starOK = ci.dominatedByCond(ifi.Block(), `re:eq\(add\(0x1,\?phi\d+\),0x0\)`, true)
+				// the label tested is the left-most one: a constant index 0, or the loop index under a dominating i == 0
+				starOK = matchCond(s, star0) || ci.dominatedByCond(ifi.Block(), `re:eq\(add\(0x1,\?phi\d+\),0x0\)`, true)
 			}
 		}
 		c.Check(starOK, rule, fname(f), "'*' is honoured only for the left-most label", "", "the wildcard test is not restricted to label index 0", f.Pos())
